@@ -267,6 +267,60 @@ pub fn structured_values(f: IntFmt, neigh: i128, d_max: i128) -> Vec<i128> {
     v
 }
 
+/// Raw values of integer format `f` that sit on / next to the rounding boundaries of a binary
+/// float with `p` bits of precision: for every position of the leading amplitude bit above p, a
+/// few p-bit mantissas (even, odd, all-ones, random) shifted into place, plus exactly half a unit
+/// in the last place, plus or minus offsets at every lower bit position (0, 1, 2, 4, ...). These
+/// are the inputs on which "correctly rounded" differs from truncation, from rounding in two
+/// steps (through a wider float) and from round-half-up.
+pub fn rounding_boundaries(f: IntFmt, p: u32, seed: u64) -> Vec<i128> {
+    let mut v: Vec<i128> = Vec::new();
+    let (min, max) = (f.min(), f.max());
+    let mut x = seed | 1;
+    let mut next = || {
+        x ^= x << 13;
+        x ^= x >> 7;
+        x ^= x << 17;
+        x
+    };
+    let amp_bits = f.bits - 1; // magnitude bits of the signed amplitude
+    if amp_bits <= p {
+        return v;
+    }
+    for lead in p..=amp_bits {
+        // leading bit at position `lead` (value 2^lead), mantissa occupies bits lead..=lead-p+1
+        let sh = lead + 1 - p; // number of bits below the mantissa
+        let top = 1i128 << (p - 1);
+        let mants: [i128; 7] = [top, top + 1, (1i128 << p) - 1, (1i128 << p) - 2, top | (next() as i128 & (top - 1)), top | (next() as i128 & (top - 1)) | 1, top | ((next() as i128 & (top - 1)) & !1)];
+        for m in mants {
+            let base = m << sh;
+            let half = 1i128 << (sh - 1);
+            let mut offs: Vec<i128> = vec![0, 1, -1, 2, -2];
+            let mut k = 2;
+            while k < sh - 1 {
+                offs.push(1i128 << k);
+                offs.push(-(1i128 << k));
+                k += 3;
+            }
+            if sh >= 2 {
+                offs.push((1i128 << (sh - 1)) - 1);
+                offs.push(-((1i128 << (sh - 1)) - 1));
+            }
+            for o in offs {
+                for amp in [base + half + o, -(base + half + o), base + o, -(base + o)] {
+                    let raw = f.from_amp(amp);
+                    if raw >= min && raw <= max {
+                        v.push(raw);
+                    }
+                }
+            }
+        }
+    }
+    v.sort_unstable();
+    v.dedup();
+    v
+}
+
 #[cfg(test)]
 mod tests {
     use super::*;
